@@ -308,6 +308,41 @@ func obsRead(g geom.T, err error) string {
 }
 
 func genC03(r *Rng, e *Emitter, n int) {
+	// boundary sizes: coordinate arrays around the block sizes of chunked readers / writers
+	for k, bc := range bigCases(n >= 100000) {
+		stride, pts := bc[0], bc[1]
+		if stride > 4 {
+			continue
+		}
+		l := layoutForStride(stride)
+		if stride == 3 && k%2 == 0 {
+			l = geom.XYM
+		}
+		cs := coordsOfFlat(stride, bigFlat(stride, pts))
+		t := &gtree{kind: "ls", layout: l, c1: cs}
+		if k%3 == 0 {
+			t = &gtree{kind: "pg", layout: l, c2: [][]geom.Coord{cs, coordsOfFlat(stride, bigFlat(stride, 4))}}
+		}
+		c := codecs[k%len(codecs)]
+		ndr := k % 2
+		var bo binary.ByteOrder = wkb.XDR
+		if ndr == 1 {
+			bo = wkb.NDR
+		}
+		g := t.build()
+		sizes := []int{1 << 20}
+		e.tally("big")
+		e.emit("C03.rt", fmt.Sprintf("(%s %d %s %s)", c.name, ndr, t.sx(), sxInts(sizes)), guard(func() string {
+			bs, err := c.marshal(g, bo)
+			if err != nil {
+				return sxErr(err)
+			}
+			rd := &chunkReader{data: append(append([]byte{}, bs...), bs...), sizes: sizes}
+			o1 := obsRead(c.read(rd))
+			o2 := obsRead(c.read(rd))
+			return fmt.Sprintf("(ok %s %s %s %d)", hexOrDash(bs), o1, o2, rd.consumed)
+		}))
+	}
 	for i := 0; i < n; i++ {
 		l := xyzmLayouts[r.Intn(4)]
 		if r.chance(1, 25) {
